@@ -36,6 +36,7 @@ package reload
 //@   at-call Sum256 as h: assert [hash-of-the-whole-content] called(rd) && res(rd, 1) == nil && ref(arg0) == ref(res(rd, 0)) && len(arg0) == len(res(rd, 0))
 //@   ensures [readable-content-is-state-1] called(h) ==> result.state == 1 && result.sum == res(h)
 //@   ensures [unreadable-is-never-state-1] !called(h) ==> result.state == 2 || result.state == 3
+//@   ensures [every-content-that-was-read-is-hashed-also-the-empty-one] called(rd) && res(rd, 1) == nil ==> called(h)
 // Rejection codes are confined to the documented alphabet.
 //@ func sanitizeRejectionCode
 //@   props C38
